@@ -22,11 +22,12 @@ TApp == Ev("app") /\ c' = (CASE e.op = "write" -> AppWrite(c, e.side, e.sid, e.n
                              [] e.op = "dgram_send" -> DgramSend(c, e.id, e.size, e.res = "ok")
                              [] e.op = "dgram_recv" -> DgramRecv(c, e.id, e.size, e.data_ok)
                              [] OTHER -> c)
+TSum == Ev("appsum") /\ c' = c
 TPanic == Ev("panic") /\ c' = Panic(c)
 TFinal == Ev("final") /\ c' = Final(c, e.cli_done, e.cli_ok, e.srv_done)
 
 TraceInit == l = 1 /\ c = CInit(FALSE) /\ flag = FALSE
-TraceNext == (TReset \/ TDgram \/ TDlv \/ TUndeliverable \/ TQ \/ TApp \/ TPanic \/ TFinal)
+TraceNext == (TReset \/ TDgram \/ TDlv \/ TUndeliverable \/ TQ \/ TApp \/ TSum \/ TPanic \/ TFinal)
              /\ flag' = (c.ok /\ ~c'.ok)
 ContractHolds == c.ok \/ PrintT(<<"CONTRACT", c.why>>) = FALSE
 \* reported once, at the step that broke the contract; validation of the following runs continues
